@@ -123,3 +123,44 @@ Proof.
   eexists _, _, _, (map inner_of inner), _, _. rewrite map_length.
   split; [reflexivity|]. split; [exact Hlen|]. split; [exact H1|]. split; [exact Es|]. split; [reflexivity | exact H3].
 Qed.
+
+(* mix: the score is the index distribution's log-density of the component plus that component's score *)
+Lemma eval_vars_mid (pre l suf : list val) :
+  mapM (eval (pre ++ l ++ suf)) (map EVar (seq (length pre) (length l))) = Ok l.
+Proof.
+  revert pre. induction l as [|x r IH]; intros pre; [reflexivity|]. simpl seq. simpl map. rewrite mapM_cons. simpl eval.
+  rewrite nth_error_app2 by lia. rewrite Nat.sub_diag. simpl.
+  replace (pre ++ x :: r ++ suf) with ((pre ++ [x]) ++ r ++ suf) by (rewrite <- app_assoc; reflexivity).
+  specialize (IH (pre ++ [x])). rewrite app_length in IH. simpl in IH. rewrite Nat.add_1_r in IH. rewrite IH. reflexivity.
+Qed.
+
+Theorem mix_is_index_plus_component d bs t :
+  wft (g_mix d bs) t -> length (t_args t) = S (gfs_len bs) ->
+  exists p bargs idx sub a,
+    t_args t = VZ p :: bargs /\
+    nth_error bargs (clampZ idx (gfs_len bs)) = Some (VT a) /\
+    wf_branch bs (clampZ idx (gfs_len bs)) sub /\ t_args sub = a /\
+    t_score t = d_logpdf d idx p + t_score sub /\ t_retval t = t_retval sub /\
+    t_choices t = cprefix (map KS mix_component) [([], VZ idx)] ++ cprefix (map KS mix_sample) (t_choices sub).
+Proof.
+  unfold g_mix. intros H Hlen. destruct t; try (simpl in H; contradiction). simpl t_args in *.
+  simpl in H. destruct subs as [|[a1 t1] subs]; [contradiction|]. destruct H as [-> [Hav1 [Hw1 H]]].
+  destruct subs as [|[a2 t2] subs]; [contradiction|]. destruct H as [-> [Hav2 [Hw2 [-> Hret]]]].
+  destruct t1; simpl in Hw1; try contradiction. destruct Hw1 as [-> [p [-> ->]]].
+  destruct args as [|a0 bargs]; [discriminate|]. simpl in Hlen. injection Hlen as Hlen.
+  unfold eval_list in Hav1. simpl in Hav1. inversion Hav1; subst a0. clear Hav1.
+  simpl t_retval in *.
+  destruct t2; simpl in Hw2; try contradiction.
+  destruct Hw2 as [idx [bargs' [a [-> [-> [Hnth [Hwb [Ha [-> ->]]]]]]]]].
+  cbn [app] in Hav2. rewrite nth_error_app2 in Hav2 by lia. rewrite Hlen, Nat.sub_diag in Hav2. cbn [nth_error bind] in Hav2.
+  pose proof (eval_vars_mid [VZ p] bargs [VZ v]) as E. simpl length in E. rewrite Hlen in E. cbn [app] in E.
+  unfold eval_list in Hav2. rewrite E in Hav2. simpl in Hav2. inversion Hav2; subst idx bargs'. clear Hav2 E.
+  eexists p, bargs, v, _, a. simpl t_args in *.
+  split; [reflexivity|]. split; [exact Hnth|]. split; [exact Hwb|]. split; [exact Ha|].
+  split; [simpl; lia|]. split.
+  - cbn [t_retval] in Hret. destruct bargs as [|b0 br]; simpl in Hlen; rewrite <- Hlen in Hret.
+    + simpl in Hret. inversion Hret. reflexivity.
+    + cbn [app] in Hret. rewrite <- app_assoc in Hret. rewrite nth_error_app2 in Hret by lia.
+      replace (S (length br) - length br)%nat with 1%nat in Hret by lia. simpl in Hret. inversion Hret. reflexivity.
+  - simpl. rewrite app_nil_r. reflexivity.
+Qed.
